@@ -23,6 +23,8 @@ def js_of_tmpl(t):
         return "Env.bindings"
     if k == "throw":
         return "throw 'verifthrow'"
+    if k == "mutevent":
+        return "event.verifmark = 1; Env.bindings"
     if k == "addfact":
         return "Env.AddFact(%s, %s)" % (json.dumps(t["id"]), json.dumps(t["fact"]))
     raise ValueError(k)
@@ -46,8 +48,10 @@ def action(rng, fail_prob=0.1):
     r = rng.random()
     if r < fail_prob:
         t = {"t": "throw"}
-    elif r < 0.75:
+    elif r < 0.65:
         t = {"t": "echo"}
+    elif r < 0.8:
+        t = {"t": "mutevent"}      # writes to its (private) copy of the event: other executions must not see it
     else:
         t = {"t": "lit", "v": rng.choice([1, "done", True, {"k": 1}, [1, 2]])}
     return {"code": js_of_tmpl(t), "verif_tmpl": t}
